@@ -162,7 +162,7 @@ func runNative(genDir, hdir string, tapes []*Tape) (map[string]*NativeResult, er
 			}
 			run := exec.Command(bin, "-test.run", "^TestVHReplay$", "-test.timeout", "600s")
 			run.Dir = filepath.Join(repoDir)
-			run.Env = append(goEnv(), "VH_TAPES="+tapeFile)
+			run.Env = append(goEnv(), "VH_TAPES="+tapeFile, "TZ=Asia/Shanghai")
 			var stdout bytes.Buffer
 			run.Stdout = &stdout
 			run.Stderr = &stdout
